@@ -171,6 +171,12 @@ func ranksOf(n int, less func(i, j int) bool) []int64 {
 	return ranks
 }
 
+func shuffledStrs(r *rand.Rand, xs []string) []string {
+	out := append([]string{}, xs...)
+	r.Shuffle(len(out), func(i, j int) { out[i], out[j] = out[j], out[i] })
+	return out
+}
+
 func pick(r *rand.Rand, n, k int) []int {
 	p := r.Perm(n)[:k]
 	// keep the pool's own order half of the time, shuffled otherwise (ranks are independent
@@ -288,11 +294,21 @@ func randomDef(r *rand.Rand, n int, nearmiss bool) Def {
 	d := Def{Kind: "random", Pkg: fmt.Sprintf("p%d", n), Type: fmt.Sprintf("T%d", n)}
 	nf := 1 + r.IntN(5)
 	kinds := []string{"string", "int", "uint", "float", "bool", "bool", "named"}
+	// naming: plain (F0, f1, S3a ...) or, a third of the time, names that are prefixes / suffixes
+	// of one another and end in digits (field names, sorter names) with priorities out of a pool
+	// whose decimal forms are prefixes of one another too: whatever the generator derives from
+	// name + name + number must not confuse them
+	confusable := r.IntN(3) == 0
+	fieldPool := shuffledStrs(r, []string{"A", "AB", "B", "BA", "Grade", "Grade1", "Grade12", "G", "G1", "a", "ab", "b1"})
+	sorterPool := shuffledStrs(r, []string{"By", "ByA", "ByAB", "ByG", "By1", "ByGrade", "Sr", "SrA"})
 	for i := 0; i < nf; i++ {
 		f := Field{Kind: kinds[r.IntN(len(kinds))]}
-		if r.IntN(4) == 0 {
+		switch {
+		case confusable:
+			f.Name = fieldPool[i]
+		case r.IntN(4) == 0:
 			f.Name = fmt.Sprintf("f%d", i) // unexported fields are fine too
-		} else {
+		default:
 			f.Name = fmt.Sprintf("F%d", i)
 		}
 		f.GoType = f.Kind
@@ -305,6 +321,9 @@ func randomDef(r *rand.Rand, n int, nearmiss bool) Def {
 	names := make([]string, ns)
 	for s := range names {
 		names[s] = fmt.Sprintf("S%d%c", n, 'a'+s)
+		if confusable {
+			names[s] = sorterPool[s]
+		}
 		if r.IntN(2) == 0 {
 			names[s] = "*" + names[s]
 		}
@@ -332,7 +351,21 @@ func randomDef(r *rand.Rand, n int, nearmiss bool) Def {
 	}
 	for s := 0; s < ns; s++ {
 		// distinct priorities drawn from a range with gaps, negatives and zero
+		// ... or out of the whole range of int (the property: ANY assignment of distinct
+		// priorities): type extremes, values more than 2^63 apart
 		prios := r.Perm(13)[:len(member[s])]
+		pool := []int{}
+		switch {
+		case confusable:
+			pool = []int{1, 2, 11, 12, 21, 112, 121, 0, -1, -12, -2, -21, 10}
+		case r.IntN(3) == 0:
+			pool = []int{math.MinInt64, math.MinInt64 + 1, -(1 << 62), -2, -1, 0, 1, 2, 1 << 62, math.MaxInt64 - 1, math.MaxInt64, 1 << 31, -(1 << 31)}
+		}
+		if len(pool) > 0 {
+			for k, j := range r.Perm(len(pool))[:len(member[s])] {
+				prios[k] = pool[j] + 3
+			}
+		}
 		for k, i := range member[s] {
 			t := Tag{Sorter: names[s], Prio: prios[k] - 3}
 			if useAcc(i) {
@@ -459,7 +492,9 @@ func randomDef(r *rand.Rand, n int, nearmiss bool) Def {
 	// an untagged field in between, sometimes
 	if r.IntN(2) == 0 {
 		at := r.IntN(len(d.Fields) + 1)
-		u := Field{Name: "Unsorted", GoType: "string", Kind: "plain"}
+		// (of a type that may make the struct non-comparable: the generated code must not need ==
+		// on elements)
+		u := Field{Name: "Unsorted", GoType: []string{"string", "[]string", "map[string]int", "func()", "string"}[r.IntN(5)], Kind: "plain"}
 		d.Fields = append(d.Fields[:at], append([]Field{u}, d.Fields[at:]...)...)
 	}
 	return d
@@ -525,6 +560,29 @@ func corpusDefs() []Def {
 			n("Num", Tag{Sorter: "A", Prio: 5}, Tag{Sorter: "B", Bare: true}),
 			s("Name", Tag{Sorter: "B", Prio: 3}, Tag{Sorter: "A", Prio: 1}),
 			b("Flag", Tag{Sorter: "*C", Bare: true}, Tag{Sorter: "A", Prio: 9}, Tag{Sorter: "B", Prio: -1})}},
+		// priorities at the ends of int and more than 2^63 apart (any assignment of distinct
+		// priorities); the order of the keys is the order of the priorities as integers
+		{Kind: "corpus", Pkg: "c9", Type: "FarApart", Fields: []Field{
+			n("Num", Tag{Sorter: "ByFar", Prio: math.MaxInt64}, Tag{Sorter: "*ByEnds", Prio: math.MinInt64}, Tag{Sorter: "ByMid", Prio: 1 << 62}),
+			s("Name", Tag{Sorter: "ByFar", Prio: -2}, Tag{Sorter: "*ByEnds", Prio: math.MaxInt64}, Tag{Sorter: "ByMid", Prio: -(1 << 62)}),
+			b("Flag", Tag{Sorter: "ByFar", Prio: 0}, Tag{Sorter: "*ByEnds", Prio: 1}, Tag{Sorter: "ByMid", Prio: math.MinInt64 + 1})}},
+		// names and numbers that run into one another when written side by side: field Grade1 with
+		// priority 2 / field Grade with priority 12; sorter By on field AB / sorter ByA on field B;
+		// sorter By1 with priority 2 / sorter By with priority 12 ... every tag is a key of its sorter
+		{Kind: "corpus", Pkg: "c10", Type: "SideBySide", Fields: []Field{
+			n("Grade1", Tag{Sorter: "By", Prio: 2}, Tag{Sorter: "ByA", Prio: 12}),
+			s("Grade", Tag{Sorter: "By", Prio: 12}, Tag{Sorter: "*By1", Prio: 2}),
+			s("AB", Tag{Sorter: "By", Prio: 1}, Tag{Sorter: "*By1", Prio: 21}),
+			n("B", Tag{Sorter: "ByA", Prio: 1}, Tag{Sorter: "By", Prio: 21}),
+			b("A", Tag{Sorter: "ByA", Prio: 2}, Tag{Sorter: "By", Prio: -1}, Tag{Sorter: "*By1", Prio: 1})}},
+		// an element struct that is not comparable (slice, map and func fields, untagged): Less
+		// must not compare elements with ==; value and pointer forms, an accessor key among them
+		{Kind: "corpus", Pkg: "c11", Type: "NotComparable", Fields: []Field{
+			nm("Cat", "Cat11", "int", []string{"zebra", "mango", "apple"}, Tag{Sorter: "ByCatName", Prio: 1, Acc: acc}, Tag{Sorter: "*PByCat", Prio: 1}),
+			{Name: "Labels", GoType: "[]string", Kind: "plain"},
+			s("Name", Tag{Sorter: "ByCatName", Prio: 2}, Tag{Sorter: "*PByCat", Prio: 2}),
+			{Name: "Index", GoType: "map[string]int", Kind: "plain"},
+			{Name: "Hook", GoType: "func()", Kind: "plain"}}},
 		// named types over every kind of underlying type read through String(): bool (which has
 		// no `<` of its own), string, float; the latter two also plainly by another sorter
 		{Kind: "corpus", Pkg: "c8", Type: "NamedKinds", Fields: []Field{
